@@ -107,6 +107,19 @@ func newUniverseNamed(repos, tags []string) *universe {
 	return u
 }
 
+// withDeepIndex adds k indexes nested one inside the other on top of mx (Manifests[3], an index over the
+// image mi): Manifests[12] lists mx, Manifests[13] lists Manifests[12], and so on. Used by C14 only.
+func (u *universe) withDeepIndex(k int) *universe {
+	prev := u.Manifests[3]
+	for i := 0; i < k; i++ {
+		ix := ocispec.Index{MediaType: mtIndex, Manifests: []ociregistry.Descriptor{descOf(mtIndex, prev.Data)}}
+		ix.SchemaVersion = 2
+		prev = uniManifest{fmt.Sprintf("mx%d", i+2), mtIndex, mustJSON(ix)}
+		u.Manifests = append(u.Manifests, prev)
+	}
+	return u
+}
+
 // withDualRole adds one digest held both as a blob and as a manifest: the bytes of mi pushed as a blob too
 // (Blobs[3]), an image that carries them as a layer (Manifests[12]), and an index that lists that image
 // before mi itself (Manifests[13]). Used by C02 only: every sweep grows with the universe.
